@@ -33,6 +33,7 @@ fi
 for id in "$@"; do
     out=$(PV_ROOT="$base/verif" "$base/target/release/pv" run "$id" quick 2>&1)
     rc=$?
-    v=$(echo "$out" | grep -E "^pv: violation" | head -1 | cut -c1-300)
+    v=$(echo "$out" | grep -E "^pv: violation|^pv: .*(crash|hang|abort)" | head -1 | cut -c1-300)
+    [ -z "$v" ] && v=$(echo "$out" | grep -E "^VIOLATION" | head -1 | sed "s#$base/verif#/verif#")
     echo "SLOT $slot $id rc=$rc $v"
 done
